@@ -90,6 +90,13 @@ def factory_specs(tier: str) -> list[dict]:
         specs.append(R.three_body_spec(1, "1/2", "1/2", 0, [(0, R.P("R4", "1/2", 1.2, 1), True, True),
                                                             (1, R.P("R5", "1/2", 1.5, -1), True, True)],
                                        parities=(-1, 1, -1, -1), formalism=formalism))
+        # a helicity combination that exists in one topology only: R(J=0) -> B C forces
+        # lambda_B = lambda_C, the other topology allows all combinations
+        for sR in ("0", "1"):
+            specs.append(R.three_body_spec(
+                1, "1/2", "1/2", 0,
+                [(2, R.P("R8", sR, 1.6, -1), False, False), (0, R.P("R4", "1/2", 1.2, 1), False, False)],
+                parities=(-1, 1, -1, -1), formalism=formalism))
         # one outer helicity combination without any transition
         spec = R.three_body_spec(1, "1/2", "1/2", 0, [(0, R.P("R4", "1/2", 1.2, 1), False, False)],
                                  parities=(-1, 1, -1, -1), formalism=formalism)
@@ -307,7 +314,11 @@ def eval_case(case):
     # (a model must not depend on what the builder formulated before)
     plain = [c for c in combos if c[3] == "none"]
     live_order = [*plain, *reversed(plain[:-1]), *[c for c in combos if c[3] != "none"]]
-    schedule = [(ci, c, False) for ci, c in enumerate(combos)] + [(100 + k, c, True) for k, c in enumerate(live_order)]
+    if case.get("tier") != "thorough":
+        live_order = [*plain, plain[0], *[c for c in combos if c[3] == "permutate"]]
+    schedule = [(ci, c, False) for ci, c in enumerate(combos)]
+    if dyn in {"none", "bw"} and (case.get("tier") == "thorough" or (dyn == "none" and align in {"none", "dpd1"})):
+        schedule += [(100 + k, c, True) for k, c in enumerate(live_order)]
     live_builder = None
     for ci, (stable, scalar, couplings, extra), live in schedule:
         if live:
